@@ -177,6 +177,13 @@ pub fn check(c: &Case, obs: &mut Obs) -> CheckResult {
                 obs.nontrivial();
             }
             let got = stream_items(&spec, &t.items);
+            let filtered;
+            let want: &Vec<Item> = if spec.skip_mode() {
+                filtered = crate::drivers::skip_filter(want);
+                &filtered
+            } else {
+                want
+            };
             let (got_cmp, want_cmp): (&[Item], &[Item]) = if spec.parser.is_aiger() {
                 let n = aiger_prefix_len(&got);
                 (&got[..n], &want[..])
